@@ -289,8 +289,14 @@ func validateURI(uri string) error {
 		return fmt.Errorf("service endpoint '%s' is not a valid URI: contains white space or control characters", uri)
 	}
 
-	if _, err := url.ParseRequestURI(uri); err != nil {
+	u, err := url.ParseRequestURI(uri)
+	if err != nil {
 		return fmt.Errorf("service endpoint '%s' is not a valid URI: %s", uri, err.Error())
+	}
+
+	// url.ParseRequestURI also accepts request targets that are not URIs ("*", "/path/only")
+	if u.Scheme == "" {
+		return fmt.Errorf("service endpoint '%s' is not a valid URI: missing scheme", uri)
 	}
 
 	return nil
